@@ -271,7 +271,8 @@ pub fn parse_decimal(mut s: &[u8]) -> Decimal {
             let mut exp_num = 0_i32;
 
             s.parse_digits(|digit| {
-                if exp_num < 0x10000 {
+                // see `parse_exponent`: the significand's zeros may compensate a huge exponent
+                if exp_num < 100_000_000 {
                     exp_num = 10 * exp_num + digit as i32;
                 }
             });
